@@ -78,16 +78,19 @@ where
     | none :: r => ('_' :: (toString i).toList) :: go (i + 1) r
 
 /-- The expression text of a transparent call after `transparent_call_on_fields`: a field binding
-itself when the expression names one (raw or unraw spelling), else `&(expr)`. -/
-def onFields (fields : List (Option Name)) (e : ExprR) : String :=
-  match (fmtArgsIdents fields).find? (fun f => e.identName = some f || e.identName = some (unraw f)) with
+itself when the placeholder names the field inside the literal (no arguments at all; raw or unraw
+spelling), else `&(expr)` - inside an argument expression a field's name is a reference to it. -/
+def onFields (noArgs : Bool) (fields : List (Option Name)) (e : ExprR) : String :=
+  match (if noArgs then
+      (fmtArgsIdents fields).find? (fun f => e.identName = some f || e.identName = some (unraw f))
+    else none) with
   | some f => String.ofList f
   | none => "&(" ++ e.toks ++ ")"
 
 def transparentCallOnFields (cc : CharClasses) (a : FmtAttr) (fields : List (Option Name)) :
     Option (String × Trait) :=
   match transparentCall cc a with
-  | some (e, t) => some (onFields fields e, t)
+  | some (e, t) => some (onFields a.args.isEmpty fields e, t)
   | none => none
 
 /-- The name a placeholder is resolved to by `bounded_types` / `placeholders_by_arg`. -/
